@@ -22,6 +22,10 @@ class VirtualTimeLoop(asyncio.SelectorEventLoop):
         self._outstanding_executor_jobs = 0
         self.hung = False
         self.steps = 0
+        # a run that never runs dry (e.g. a keep-alive timer re-armed for ever while the call never ends) must end too:
+        # after this many loop iterations the run counts as hung (Hang is raised by the runner, like for a dry loop)
+        self.max_steps = 2_000_000
+        self.runaway = False
 
     def time(self) -> float:
         return self._vt
@@ -38,6 +42,10 @@ class VirtualTimeLoop(asyncio.SelectorEventLoop):
 
     def _run_once(self) -> None:  # type: ignore[override]
         self.steps += 1
+        if self.steps > self.max_steps and not self.hung:
+            self.hung = True
+            self.runaway = True
+            self.stop()
         if not self._ready:
             # drop cancelled timers at the head, then jump
             sched = self._scheduled
@@ -64,6 +72,7 @@ def run_virtual(make_coro: Callable[[], Awaitable[Any]], max_steps: int = 2_000_
     where the loop is already closed but still answers .time()/.steps.  Raises Hang when the
     loop runs dry before the coroutine finished."""
     loop = VirtualTimeLoop()
+    loop.max_steps = max_steps
     asyncio.set_event_loop(loop)
     try:
         task = loop.create_task(make_coro())
@@ -71,7 +80,11 @@ def run_virtual(make_coro: Callable[[], Awaitable[Any]], max_steps: int = 2_000_
         loop.run_forever()
         if not task.done():
             at = loop.time()
+            runaway = loop.runaway
+            loop.max_steps = loop.steps + 100_000  # room for the unwinding below
             _drain(loop, [task])
+            if runaway:
+                raise Hang(f"the call was still running after {max_steps} event-loop iterations (virtual time {at:.3f}): it never ends")
             raise Hang(f"event loop ran dry at virtual time {at:.3f} with the call unfinished")
         return task.result(), loop
     finally:
@@ -94,6 +107,7 @@ def _drain(loop: VirtualTimeLoop, tasks: List[Any]) -> None:
         t.cancel()
     for _ in range(3):
         loop.hung = False
+        loop.max_steps = max(loop.max_steps, loop.steps + 100_000)
         waiter = asyncio.gather(*tasks, return_exceptions=True)
         waiter.add_done_callback(lambda _f: loop.stop())
         try:
